@@ -1,5 +1,6 @@
 //! nlmc — bounded-exhaustive model checking of the Nederlang interpreter (see /verif/DESIGN.md).
 
+mod bcmc;
 mod common;
 mod gen;
 mod outcome;
@@ -45,6 +46,8 @@ fn main() {
     // one brk-based malloc arena that never trims: per-case allocation churn otherwise turns into
     // one mprotect/munmap per case, which is very slow with 16 processes inside a VM
     unsafe {
+        // a closed stdout (`| head`) ends the process quietly
+        libc::signal(libc::SIGPIPE, libc::SIG_DFL);
         libc::mallopt(libc::M_ARENA_MAX, 1);
         libc::mallopt(libc::M_TRIM_THRESHOLD, i32::MAX);
         libc::mallopt(libc::M_TOP_PAD, 64 << 20);
